@@ -1239,6 +1239,10 @@ def _run(ctx):
     # third tie (tools/vf/uniwrapgen.py): the family hooks, GaussianKDE's own methods and the selecting Univariate wrapper, generated into
     # Gen_uniwrap.v and proved equal to Model.Lifecycle in Props/C19_uni2.v (C19_bridge2_*); fail-closed, and never stops what follows
     uniwrapgen.hook(ctx, statusu)
+    # fourth tie (tools/vf/kdeqgen.py): GaussianKDE._get_bounds / cumulative_distribution / percent_point, the four _constant_* methods and
+    # the constructors of the ScipyModel classes -> Gen_kdeq.v / Gen_uinit.v, Props/C19_kde.v / C19_kde_init.v (C19_bridge3_*)
+    from .. import kdeqgen
+    kdeqgen.hook(ctx, statusu, statusz)
     ctx.rule('correspondence: random histories (3..8 events: fit 42% / query 40% (cdf,pdf,ppf,logpdf,sample[,partial]) / to_dict 11% / '
              'get_instance 7%) per object configuration: 8 ScipyModel families (default, seeded; TruncatedGaussian without/with one/both '
              'bounds; GaussianKDE with sample_size 1/5/8/30, bw_method scott/silverman/scalar/invalid, weights), Univariate wrapper '
